@@ -18,12 +18,12 @@
 //
 // Binary Grammar
 //
-// binary ::= b b1 b0 <binary-data> binary
+// binary ::= x41 b1 b0 <binary-data> binary
 //        ::= B b1 b0 <binary-data>
 //        ::= [x20-x2f] <binary-data>
 //
 // Binary data is encoded in chunks. The octet x42 ('B') encodes the final chunk
-// and x62 ('b') represents any non-final chunk. Each chunk has a 16-bit // length value.
+// and x41 ('A') represents any non-final chunk. Each chunk has a 16-bit // length value.
 // 	len = 256 * b1 + b0
 //
 // short binary
@@ -42,7 +42,7 @@ import (
 const (
 	_binaryChunkSize      = 4096
 	_binaryFinalChunk     = byte('B')  // final chunk
-	_binaryChunk          = byte('b')  // non-final chunk
+	_binaryChunk          = byte('A')  // non-final chunk (x41 in the hessian 2.0 grammar; x62 is object class #2)
 	_binaryShortLenTagMin = byte(0x20) // 1-byte length binary min
 	_binaryShortLenTagMax = byte(0x2f) // 1-byte length binary max
 	_binaryShortTagMaxLen = int(_binaryShortLenTagMax - _binaryShortLenTagMin)
